@@ -9,7 +9,7 @@ CONSTANTS
   ScrapeLists <- MCScrapeLists
   TruncateFirst = TRUE
   BlankFirst = TRUE
-CONSTRAINT Bound
+  MaxReq = 2
 INVARIANTS WellFramed InOrder WorkersInvisible
 PROPERTIES Isolation
 CHECK_DEADLOCK FALSE
